@@ -451,9 +451,55 @@ def ownlocal(run, fx, reach_q):
     return n
 
 
+def opsflow(run, fx):
+    """an entry point that takes the client's gr_face_ops hands that very struct (all of it: get_table AND release_table) to the Face;
+    one that re-packs single members into a struct of its own drops release_table, and every table the face fetches is never
+    given back"""
+    flows = {('graphite2::Face::Face', 1)}
+    changed, rounds = True, 0
+    while changed and rounds < 8:
+        changed = False
+        rounds += 1
+        for fn in fx.all_fns():
+            if not fn.file.endswith(('gr_face.cpp', 'Face.cpp', 'FileFace.cpp', 'Face.h')) or not fn.blocks:
+                continue
+            pv = {p_['vid']: i for i, p_ in enumerate(fn.f.get('params') or [])}
+            for _, e in fn.elements():
+                if e['k'] not in ('CallExpr', 'CXXMemberCallExpr', 'CXXConstructExpr', 'CXXTemporaryObjectExpr', 'CXXNewExpr') or not e.get('fq'):
+                    continue
+                for (cq, j) in list(flows):
+                    if e['fq'] != cq:
+                        continue
+                    args = e.get('args') if e.get('args') is not None else (e.get('c') or [])
+                    if j >= len(args) or args[j] is None:
+                        continue
+                    a = fn.deref(args[j])
+                    if a['k'] == 'UnaryOperator' and a.get('op') == '*' and a.get('c'):
+                        a = fn.deref(a['c'][0])
+                    if a['k'] == 'DeclRefExpr' and a.get('vid') in pv and (fn.q, pv[a['vid']]) not in flows:
+                        flows.add((fn.q, pv[a['vid']]))
+                        changed = True
+    n = 0
+    for fn in fx.all_fns():
+        if not fn.file.endswith('gr_face.cpp') or not fn.q.startswith('gr_') or not fn.blocks:
+            continue
+        for i, p_ in enumerate(fn.f.get('params') or []):
+            if 'gr_face_ops' in (p_.get('t') or ''):
+                n += 1
+                inst = 'client ops of %s' % fn.q
+                if (fn.q, i) in flows:
+                    run.held('TABLETS', inst, fn.where(), 'parameter #%d reaches Face::Face as a whole' % i)
+                else:
+                    run.violated('TABLETS', inst, fn.where(), '%s does not hand the client\'s gr_face_ops (parameter #%d) to the Face: at most single members of it are used, so '
+                                 'the client\'s release_table never reaches the face and no table it fetches through get_table is ever released' % (fn.q, i))
+    if n < 2:
+        run.broken('TABLETS', 'client ops', 'expected gr_make_face_with_ops and gr_make_face_with_seg_cache_and_ops, found %d entry points with a gr_face_ops parameter' % n, '')
+
+
 def run(run):
     E = ER.setup(run)
     fx = E.fx
+    opsflow(run, fx)
     wit(run)
     tablets(run, fx)
     entries = [e for e in ER.api_entries(E.ir) if e not in ER.ENTRY_LOAD]
